@@ -212,7 +212,7 @@ func TestCheck(t *testing.T) {
 		run.Note("first_touch_of_an_expired_key_by_operation", sh.firstTouch)
 		run.Finish(t)
 	})
-	run.Rule("(i) first-toucher matrix: 11 ways to write a short-lived, already expired (also: expiry pointing to the zero time) or never expiring (year 2300 / 9999) record x 4 unrelated interludes x 3 clock advances x 17 first touchers x 9 second touchers; (ii) 1-3 waiters parked while the record is alive, 0..n-1 of them (the earliest) give up, clock advanced past the expiry; (iii)/(iv) every sequence over 26 operation instances (writes with short/long/no/past/never expiry on 2 keys; Redis: the server-side time to live of every written key is compared with the given expiry, all readers, Advance 1/3/2000 units) to the depth bound plus seeded random sequences; each followed by a full observation (Get, GetMany, ListKeys, Create); (vii) Redis: the record expires / is deleted by somebody else between the read and the write of a CasByVersion holding its current version (server pre-hook before MULTI / SET / EXEC): only nil (and then stored) or ErrNotExist are explainable; (vi) inmem, real scheduling: readers of an expired, not yet purged record race a writer of a record without expiry (80 000 / 3 200 000 rounds), the written record must survive; (v) inmem on the real clock: a record without expiry is written right at the expiry of its predecessor while waiters are parked on it and a long ListKeys keeps the lock busy - it must survive. Compared call by call with the contract model with a logical clock. distinct = distinct logical store states (presence, value, remaining lifetime, last write) reached")
+	run.Rule("(i) first-toucher matrix: 11 ways to write a short-lived, already expired (also: expiry pointing to the zero time) or never expiring (year 2300 / 9999) record x 4 unrelated interludes x 3 clock advances x 17 first touchers x 9 second touchers; (ii) 1-3 waiters parked while the record is alive, 0..n-1 of them (the earliest) give up, clock advanced past the expiry; (iii)/(iv) every sequence over 26 operation instances (writes with short/long/no/past/never expiry on 2 keys; Redis: the server-side time to live of every written key is compared with the given expiry, all readers, Advance 1/3/2000 units) to the depth bound plus seeded random sequences; each followed by a full observation (Get, GetMany, ListKeys, Create); (vii) Redis: the record expires / is deleted by somebody else between the read and the write of a CasByVersion holding its current version (server pre-hook before MULTI / SET / EXEC): only nil (and then stored) or ErrNotExist are explainable; likewise the record that makes a Create fail expires / is deleted before Create looks again: ErrExist or nil; (vi) inmem, real scheduling: readers of an expired, not yet purged record race a writer of a record without expiry (80 000 / 3 200 000 rounds), the written record must survive; (v) inmem on the real clock: a record without expiry is written right at the expiry of its predecessor while waiters are parked on it and a long ListKeys keeps the lock busy - it must survive. Compared call by call with the contract model with a logical clock. distinct = distinct logical store states (presence, value, remaining lifetime, last write) reached")
 	run.Assume("expirations lie at half clock units and the clock moves in whole units, so the exact expiry instant is never sampled")
 	run.Assume("inmem: testing/synctest virtual clock; Redis: miniredis, whose clock is the sum of FastForward calls")
 
@@ -519,6 +519,46 @@ func casAcrossExpiry(run *report.Run) *kvmodel.Vio {
 			default:
 				return &kvmodel.Vio{Sig: "redis/Cas/unexplainable-result-across-expiry", What: fmt.Sprintf("%s; it returned %v: before that instant the version matched, afterwards the key was absent - only nil or ErrNotExist can be explained", desc, cerr)}
 			}
+		}
+	}
+	// the same for Create: the record that makes the first attempt fail (key present) expires / is deleted before
+	// Create looks at it again - the explainable results are ErrExist (it was there) and nil (it is gone: created)
+	for _, how := range []string{"expire", "delete"} {
+		rs.InstallDefaultHook()
+		rs.MR.FlushAll()
+		exp := time.Now().Add(time.Hour)
+		if _, err := rs.S.Put(bg, kvs.Record{Key: "cx", Value: []byte("0"), ExpiresAt: &exp}); err != nil {
+			return &kvmodel.Vio{Sig: "redis/Put/error", What: err.Error()}
+		}
+		var fired atomic.Bool
+		sawSet := false
+		rs.MR.Server().SetPreHook(func(_ *server.Peer, cmd string, _ ...string) bool {
+			if cmd == "SETNX" || cmd == "SET" {
+				sawSet = true
+			} else if sawSet && fired.CompareAndSwap(false, true) {
+				if how == "expire" {
+					rs.MR.FastForward(2 * time.Hour)
+				} else {
+					rs.MR.Del("/kvs/cx")
+				}
+			}
+			return false
+		})
+		ver, cerr := rs.S.Create(bg, kvs.Record{Key: "cx", Value: []byte("1")})
+		rs.InstallDefaultHook()
+		if !fired.Load() {
+			continue
+		}
+		run.Add("redis_create_across_expiry_cases", 1)
+		desc := fmt.Sprintf("the record that made a Create fail was made to %s before the Create looked at it again", how)
+		switch {
+		case cerr == nil:
+			if g, gerr := rs.S.Get(bg, "cx"); gerr != nil || g.Version != ver || string(g.Value) != "1" {
+				return &kvmodel.Vio{Sig: "redis/Create/success-not-stored", What: fmt.Sprintf("%s; it returned nil (version %s) but Get returns (%q, %q, %v)", desc, ver, g.Value, g.Version, gerr)}
+			}
+		case errors.Is(cerr, gerrors.ErrExist):
+		default:
+			return &kvmodel.Vio{Sig: "redis/Create/unexplainable-result-across-expiry", What: fmt.Sprintf("%s; it returned %v: only ErrExist (the record was there) or nil (it is gone, so the key was free) can be explained", desc, cerr)}
 		}
 	}
 	return nil
